@@ -61,6 +61,7 @@ def pedersen_binds(ex, ec):
     stubs=["point negation / tweak addition are abstract (the new point is an arbitrary non-infinity point); products of two symbolic 256-bit scalars are uninterpreted on both sides"],
     functions=["btclib.ecc.musig2.apply_tweak"], timeout=600, min_ok=1)
 def apply_tweak(ex, xonly):
+    ex.merge_conditionals()
     ex.abstract_wide_arith(200, div_bits=None)
     ex.prefer_int()
     odd = ex.int("odd", 0, 1)
@@ -85,6 +86,7 @@ def apply_tweak(ex, xonly):
     stubs=["session_values is an arbitrary record; the product e*tacc is uninterpreted on both sides"],
     functions=["btclib.ecc.musig2._agg_s"], timeout=600, min_ok=1)
 def agg_s(ex, k):
+    ex.merge_conditionals()
     ex.abstract_wide_arith(200, div_bits=None)
     ex.prefer_int()
     psigs = [ex.bytes(f"s{i}_", 32) for i in range(k)]
